@@ -119,4 +119,4 @@ def designators(ctx: Ctx) -> tuple[FuncInfo, list[str] | None]:
                 if len(names) != 1:
                     return dc, None
                 order.append(next(iter(names)))
-    return dc, order
+    return dc, order or None  # no direct x.run() statement: the handlers are run through a table / callback, a form this reader does not follow
